@@ -305,6 +305,48 @@ def multi_model_granularities(c, n):
     return done
 
 
+def sort_key_not_selected(c, n):
+    """ORDER BY a field that is NOT among the requested dimensions (the raw time dimension next to its month, another dimension): the query is either refused or
+    returns exactly the groups of the same query without the ORDER BY -- the sort key never becomes a grouping key.  compile() and query() both."""
+    import random
+    rng = random.Random(c.seed * 23 + 1)          # a stream of its own
+    done = 0
+    for _ in range(n):
+        case = gen_straddle(rng) if rng.random() < 0.5 else gen_case(rng)
+        try:
+            cols, base, _ = real(case)
+        except Exception:
+            continue
+        from sidemantic import Dimension, Metric, Model
+        L = dbutil.fresh_layer()
+        L.conn.execute("create table ev(id bigint, ts timestamp, dd date, cat varchar, v bigint)")
+        for (i, t, cat, v) in case["rows"]:
+            ts = None if t is None else dbutil.us_to_ts(t)
+            L.conn.execute("insert into ev values (?, ?, ?, ?, ?)", [i, ts, None if ts is None else ts.date(), cat, v])
+        L.add_model(Model(name="ev", table="ev", primary_key="id",
+                          dimensions=[Dimension(name="ts", type="time", granularity=case["base_ts"], sql="ts"), Dimension(name="dd", type="time", granularity="day", sql="dd"),
+                                      Dimension(name="tx", type="time", granularity="hour", sql="(ts + INTERVAL 1 DAY)"), Dimension(name="cat", type="categorical")],
+                          metrics=[Metric(name="m0", agg="sum", sql="v"), Metric(name="m1", agg="count")]))
+        drefs = ["ev.%s%s" % (cn, "__" + g if g else "") for cn, g in case["dims"]]
+        requested = {cn for cn, g in case["dims"] if not g}
+        keys = [k for k in ("ev.ts", "ev.cat", "ev.dd", "ev.ts__hour") if k.split(".")[1] not in requested and k not in drefs]
+        if not keys:
+            continue
+        key = rng.choice(keys) + rng.choice(["", " DESC"])
+        kw = dict(metrics=["ev.m0", "ev.m1"], dimensions=drefs, filters=(["ev.cat = 'a'"] if case["filt"] else []), order_by=[key])
+        for how in ("compile", "query"):
+            try:
+                rows = (L.conn.execute(L.compile(**kw)) if how == "compile" else L.query(**kw)).fetchall()
+            except Exception:
+                continue                    # refused (by validation, the generator or the database): allowed
+            done += 1
+            got = [tuple((dbutil.canon_val(x)[1] if isinstance(x, (datetime.date, datetime.datetime)) else x) for x in r) for r in rows]
+            if dbutil.canon_rows(got) != dbutil.canon_rows(base):
+                c.violation("ORDER BY a field that is not a requested dimension changes the groups of the result (%s, via %s)" % (key, how),
+                            {"kind": "sortkey", "case": case, "order_by": key, "via": how, "without_order_by": [list(map(str, r)) for r in base[:8]], "with_order_by": [list(map(str, r)) for r in got[:8]]})
+    return done
+
+
 def run(c):
     c.trusted += ["Base/Calendar.v hand-written calendar (Hinnant's civil-from-days), proved a floor for all t; tied to DuckDB DATE_TRUNC by correspondence",
                   "Model/Single.v + Sem.Trunc as the model of the <dim>__<gran> CTE columns and of base-granularity truncation of a bare time dimension; Model/TimeDim.v hand-written model of the default-time-dimension step",
@@ -329,6 +371,7 @@ def run(c):
     n_def = defaults(c, 300 if c.tier == "quick" else 4000)
     n_cases += multi_model_granularities(c, 12 if c.tier == "quick" else 120)
     n_rej = reject_nontime(c)
+    n_cases += sort_key_not_selected(c, 30 if c.tier == "quick" else 300)
     c.obligation("oracle: spec rows, additivity from the implementation's finer result (%d pairs), default-time-dimension iff (%d cases), rejection of non-time / unknown granularities (%d)" % (n_add, n_def, n_rej),
                  not c.violations, "correspondence")
     c.coverage.update({"evaluations": n_pts + n_cases + n_add + n_def + n_rej, "distinct_nontrivial": multi + n_add,
